@@ -342,4 +342,77 @@ class NoDepsFileNames(object):
             shutil.rmtree(d, ignore_errors=True)
 
 
-FAMILIES = [SearcherLists(), FileSearchers(), ReaderToSearcher(), NoDepsFileNames()]
+
+class SearcherHistories(object):
+    name = 'searcher-histories'
+    describe = ('ONE file searcher object (AnyFileSearcher, PyFileSearcher, PyPackageSearcher) lives through every sequence of <=4 '
+                'events over {ask, an up-to-date copy appears, a stale copy appears, the copy is removed} on a destination directory '
+                'that exists or is created only with the first copy: every answer equals that of a searcher made afresh')
+    EVENTS = ['ask', 'fresh-copy', 'stale-copy', 'remove']
+
+    def blocks(self, tier):
+        return [{'kind': k, 'dir_exists': d} for k in ('any', 'py', 'pkg') for d in (1, 0) if not (k == 'pkg' and d == 0)]
+
+    def cases(self, block, tier):
+        for ln in (1, 2, 3, 4):
+            for seq in itertools.product(range(4), repeat=ln):
+                if seq[-1] == 0 and any(seq[:-1]):
+                    yield {'kind': block['kind'], 'dir_exists': block['dir_exists'], 'seq': list(seq)}
+
+    def run_case(self, case):
+        from pysmi.searcher.anyfile import AnyFileSearcher
+        from pysmi.searcher.pyfile import PyFileSearcher
+        from pysmi.searcher.pypackage import PyPackageSearcher
+        root = scratch()
+        d = os.path.join(root, 'dst')
+        pkgname = None
+        try:
+            if case['dir_exists']:
+                os.mkdir(d)
+            ext = '.json' if case['kind'] == 'any' else '.py'
+
+            def make():
+                if case['kind'] == 'any':
+                    return AnyFileSearcher(d).setOptions(exts=['.json'])
+                if case['kind'] == 'py':
+                    return PyFileSearcher(d)
+                return PyPackageSearcher(pkgname)
+            if case['kind'] == 'pkg':
+                with open(os.path.join(d, '__init__.py'), 'w') as f:
+                    f.write('')
+                pkgname = 'dst'
+                sys.path.insert(0, root)
+            used = make()
+            vs = []
+            got = None
+            for pos, ev in enumerate(case['seq']):
+                name = self.EVENTS[ev]
+                path = os.path.join(d, 'FOO-MIB' + ext)
+                if name == 'ask':
+                    got = ask(used, 'FOO-MIB', False)
+                    want = ask(make(), 'FOO-MIB', False)
+                    if got != want:
+                        vs.append(('C10|searcher-history|%s|answered-%s-where-a-fresh-searcher-says-%s|after-%s' % (
+                            case['kind'], got, want, self.EVENTS[case['seq'][pos - 1]] if pos else 'nothing'),
+                            'events %r position %d' % ([self.EVENTS[e] for e in case['seq']], pos)))
+                        break
+                elif name == 'remove':
+                    if os.path.exists(path):
+                        os.unlink(path)
+                else:
+                    if not os.path.isdir(d):
+                        os.mkdir(d)
+                    with open(path, 'w') as f:
+                        f.write('x')
+                    t = SRC_MTIME + (5 if name == 'fresh-copy' else -5)
+                    os.utime(path, (t, t))
+            return repr(got), vs, len(case['seq'])
+        finally:
+            if pkgname:
+                sys.path.remove(root)
+                for k in [k for k in sys.modules if k == pkgname or k.startswith(pkgname + '.')]:
+                    del sys.modules[k]
+                importlib.invalidate_caches()
+            shutil.rmtree(root, ignore_errors=True)
+
+FAMILIES = [SearcherLists(), FileSearchers(), ReaderToSearcher(), NoDepsFileNames(), SearcherHistories()]
